@@ -16,7 +16,7 @@ from .. import nets  # noqa: E402
 PID = "C20"
 RULE = (
     "case = hypergraph or simplicial complex with >= 1 edge of >= 2 nodes (labels int / negative / gapped / str / multi-char "
-    "str, isolated nodes, singleton edges, multi-edges, explicit IDs) + layout options (center, radius, resolution, "
+    "str / integral floats / mixed int-float / numpy ints, isolated nodes, singleton edges, multi-edges, explicit IDs) + layout options (center, radius, resolution, "
     "equidistant, seed, k, return_phantom_graph) + max_order + a style mode (scalar / list / dict keyed by ID / stat "
     "object) + which drawing function (draw, draw_nodes, draw_hyperedges, draw_simplices). Oracle: every layout returns "
     "exactly one finite 2-vector per node (bipartite layout: per node and per edge); edge_positions_from_barycenters = mean "
